@@ -529,6 +529,9 @@ func OracleC17(r *EngRun) []explore.Violation {
 			if int(d.KeyCount) != d.CensusKeys {
 				vs = append(vs, explore.Violation{Sig: "C17:keycount", Msg: fmt.Sprintf("%s: db%d STATE.KeyCount=%d but %d live keys", name, d.DB, d.KeyCount, d.CensusKeys)})
 			}
+			if d.Misfiled > 0 {
+				vs = append(vs, explore.Violation{Sig: "C17:timer-table-corrupt", Msg: fmt.Sprintf("%s: the timer tables of db%d are inconsistent:%s", name, d.DB, d.MisfiledDetail)})
+			}
 			if d.Orphans > 0 {
 				vs = append(vs, explore.Violation{Sig: "C17:freed-record-reachable", Msg: fmt.Sprintf("%s: db%d %d freed request records still reachable from live structures:%s", name, d.DB, d.Orphans, d.Detail)})
 			}
